@@ -43,7 +43,7 @@ def mk_assoc_model(sc, tc, sc2, tc2, refl):
 
 
 # the second association's cardinalities vary only with the first's fixed (and vice versa)
-CIS = [c for c in range(256) if not ((c // 16) and (c % 16))]
+CIS = [c for c in range(256) if not ((c // 16) and (c % 16))][PARAMS.get('shard', 0)::PARAMS.get('nshards', 1)]
 NCI = len(CIS)
 MAT2 = [0, 6, NMAT - 1]
 
